@@ -59,15 +59,22 @@ func repoBuildID() string {
 		h := sha256.Sum256(diff)
 		id += "+dirty-" + hex.EncodeToString(h[:4])
 	}
+	if ov := os.Getenv("VERIF_OVERLAY"); ov != "" {
+		id += "+overlay"
+	}
 	return id
 }
 
 func buildEngine(engine string, race bool) string {
-	out := filepath.Join(verifRoot, "bin", engine+".test")
+	// built into the per-invocation temp dir so that concurrent checks never clobber each other's binary
+	out := filepath.Join(tmpDir, engine+".test")
 	args := []string{"test", "-c", "-tags", "verif", "-vet=off", "-o", out}
 	if race {
-		out = filepath.Join(verifRoot, "bin", engine+".race.test")
-		args = []string{"test", "-c", "-race", "-tags", "verif", "-vet=off", "-o", out}
+		args = append(args, "-race")
+	}
+	if ov := os.Getenv("VERIF_OVERLAY"); ov != "" {
+		// mutation testing: substitute files of /repo at compile time without touching /repo
+		args = append(args, "-overlay", ov)
 	}
 	args = append(args, "./engines/"+engine)
 	cmd := exec.Command(goBin(), args...)
@@ -99,6 +106,9 @@ type crashInfo struct {
 
 var tmpDir string
 
+// stopAll, when closed, kills running batch workers (early stop). nil = never.
+var stopAll chan struct{}
+
 // runWorker starts one worker process for a job and returns parsed results.
 func runWorker(bin string, job kit.Job, hardDeadline time.Time, gomaxprocs int, extraEnv ...string) (res []kit.RunResult, lastStarted int, lastSeed uint64, done bool, stderrTail string, timedOut bool) {
 	jobPath := filepath.Join(tmpDir, fmt.Sprintf("job-%d-%d-%s-%d.json", job.Start, job.Stride, job.Profile, time.Now().UnixNano()))
@@ -118,8 +128,13 @@ func runWorker(bin string, job kit.Job, hardDeadline time.Time, gomaxprocs int, 
 	}
 	doneCh := make(chan error, 1)
 	go func() { doneCh <- cmd.Wait() }()
+	killed := false
 	select {
 	case <-doneCh:
+	case <-stopAll: // early stop: a violation was found elsewhere; results so far are kept
+		cmd.Process.Kill()
+		<-doneCh
+		killed = true
 	case <-time.After(time.Until(hardDeadline)):
 		cmd.Process.Kill()
 		<-doneCh
@@ -160,10 +175,18 @@ func runWorker(bin string, job kit.Job, hardDeadline time.Time, gomaxprocs int, 
 		}
 		lastStarted, lastSeed = pending, pendingSeed
 	}
+	if killed {
+		done, lastStarted = true, -1 // not a crash: we stopped it
+	}
 	s := errb.String()
-	if len(s) > 6000 {
+	if len(s) > 6000 && os.Getenv("VERIF_KEEP_STDERR") == "" {
 		// keep the head of the panic, which names the failing frame
-		if i := strings.Index(s, "panic:"); i >= 0 && len(s)-i > 6000 {
+		if i := strings.Index(s, "RUN-TIMEOUT"); i >= 0 {
+			s = s[i:]
+			if len(s) > 400000 {
+				s = s[:400000]
+			}
+		} else if i := strings.Index(s, "panic:"); i >= 0 && len(s)-i > 6000 {
 			s = s[i : i+6000]
 		} else if i := strings.Index(s, "fatal error:"); i >= 0 && len(s)-i > 6000 {
 			s = s[i : i+6000]
@@ -272,6 +295,9 @@ func doReplay(path string) int {
 	}
 	bin := buildEngine(rf.Engine, false)
 	res, _, _, _, stderr, timedOut := runWorker(bin, kit.Job{Mode: "replay", Replay: path}, time.Now().Add(20*time.Minute), 1)
+	if p := os.Getenv("VERIF_KEEP_STDERR"); p != "" {
+		os.WriteFile(p, []byte(stderr), 0644)
+	}
 	if timedOut {
 		die2("replay timed out")
 	}
@@ -373,6 +399,7 @@ func doCheck(spec *kit.PropertySpec, tier string, runsOverride, budgetOverride, 
 	sort.SliceStable(items, func(i, j int) bool { return items[i].start < items[j].start })
 
 	var a agg
+	knownEarly := loadKnown()
 	itemCh := make(chan item, len(items))
 	for _, it := range items {
 		itemCh <- it
@@ -380,6 +407,8 @@ func doCheck(spec *kit.PropertySpec, tier string, runsOverride, budgetOverride, 
 	close(itemCh)
 	var wg sync.WaitGroup
 	stop := make(chan struct{})
+	stopAll = stop
+	defer func() { stopAll = nil }()
 	var stopOnce sync.Once
 	for w := 0; w < nWorkers; w++ {
 		wg.Add(1)
@@ -403,7 +432,8 @@ func doCheck(spec *kit.PropertySpec, tier string, runsOverride, budgetOverride, 
 					a.results = append(a.results, res...)
 					viol := false
 					for _, r := range res {
-						if r.Violation != nil {
+						// a listed known finding does not cut the batch short
+						if r.Violation != nil && matchKnown(knownEarly, spec.ID, r.Violation) == nil {
 							viol = true
 						}
 					}
@@ -477,6 +507,7 @@ func doCheck(spec *kit.PropertySpec, tier string, runsOverride, budgetOverride, 
 	}
 	wg.Wait()
 	stWg.Wait()
+	stopAll = nil // minimise/replay workers below must not be affected by the early stop
 
 	// ---- determinism verdict
 	diverged := 0
@@ -572,6 +603,12 @@ func doCheck(spec *kit.PropertySpec, tier string, runsOverride, budgetOverride, 
 		if c.idx < 0 {
 			fmt.Println(c.stderr)
 			die2("worker died before starting a run")
+		}
+		if strings.Contains(c.stderr, "RUN-TIMEOUT") {
+			dump := filepath.Join(verifRoot, "replays", fmt.Sprintf("%s-hang-%d.stacks.txt", spec.ID, c.idx))
+			os.MkdirAll(filepath.Dir(dump), 0755)
+			os.WriteFile(dump, []byte(c.stderr), 0644)
+			die2("run %d (profile %q, seed %d) exceeded the per-run wall-clock limit: simulator hang; goroutine dump in %s", c.idx, c.profile, c.seed, dump)
 		}
 		if race && strings.Contains(c.stderr, "WARNING: DATA RACE") {
 			// data race reported by the race detector riding on the simulated schedule
@@ -723,6 +760,9 @@ func doCheck(spec *kit.PropertySpec, tier string, runsOverride, budgetOverride, 
 			"known_findings_matched": countPrefix(lines, "KNOWN-FINDING"),
 			"harness_trouble":     trouble,
 		}
+		if spec.Assumptions == nil {
+			spec.Assumptions = []string{}
+		}
 		ev := map[string]any{
 			"property_id": spec.ID, "tier": tier, "seed": seed, "level": "exploration",
 			"coverage": cov, "assumptions": spec.Assumptions, "wall_s": wall, "violations": nViol,
@@ -823,6 +863,9 @@ func printManifest() {
 	engines := map[string][]string{}
 	for _, id := range ids {
 		sp := kit.Registry[id]
+		if kit.Pending[id] {
+			continue
+		}
 		engines[sp.Engine] = append(engines[sp.Engine], id)
 		checks = append(checks, map[string]any{
 			"property_id":         id,
